@@ -654,9 +654,11 @@ def gen_C18(w, tier):
         ob = sc.do("e.base %d %d" % (b, ps.gid))
         oz = sc.do("e.zero %d %d" % (z, ps.gid))
         els = {"G": ob}
-        for nm, sd in (("M", b"M"), ("N", b"N"), ("S", b"symmetric")):
+        mns = sc.do("p.mns %d" % ps.pid)          # the blinding elements of the shipped parameter OBJECT
+        for k_, (nm, sd) in enumerate((("M", b"M"), ("N", b"N"), ("S", b"symmetric"))):
             e = w.eid()
-            els[nm] = sc.do("e.arb %d %d %s" % (e, ps.gid, hx(sd)))
+            els[nm] = sc.do("e.dec %d %d %s" % (e, ps.gid, mns.split()[1 + k_])) if mns.startswith("ok") else "raise"
+            sc.do("e.arb %d %d %s" % (w.eid(), ps.gid, hx(sd)))
             t = w.eid()
             # member of the order-q subgroup: (q-1)*X + X == Zero  and decodable
             sc.do("e.smul %d %d %d" % (t, e, ps.q - 1))
